@@ -3,11 +3,13 @@
    Coq datatypes.  No Extract Constant. *)
 From Coq Require Import ExtrOcamlBasic.
 From Coq Require Import List ZArith QArith.
-From NR Require Import Model.TimeDep Model.Engine.
+From NR Require Import Model.TimeDep Model.Engine Model.Estimates Model.Search.
 
 Extraction "model.ml"
   TimeDep.td_empty TimeDep.set_expression TimeDep.value_at_value
   TimeDep.expression_at_value
   Z.add Z.mul Z.opp Z.of_nat Z.to_nat Nat.add Nat.mul
   Qred Qplus Qmult Qminus Qdiv Qcompare
-  Engine.new_solution Engine.exec_move Engine.unplan_unit Engine.get_unit Engine.from_scratch Engine.has_max_wait_vehicle Engine.has_capacity Engine.has_distance_limit.
+  Engine.new_solution Engine.exec_move Engine.unplan_unit Engine.get_unit Engine.from_scratch Engine.has_max_wait_vehicle Engine.has_capacity Engine.has_distance_limit
+  Estimates.move_executable Estimates.exec_checked Engine.unit_planned
+  Search.all_orders Search.generate_all Search.all_combinations Search.sequence_generator.
